@@ -95,3 +95,29 @@ class linear:
     raises = {"ValueError": lambda fgg, inputs, out_labels: exists(
         lambda i, r: 0 <= i and i < len(out_labels) and out_labels[i] not in inputs
         and r in fgg._rule_seq and r.lhs == out_labels[i] and two_unresolved(r, inputs), "int,RuleV")}
+
+
+# ---- per-component choice of the solver in sum_products (C01 / C02) ----------------------------------------
+@contract("fggs.sum_product.sum_products")
+class sum_products:
+    sig = {"fgg": "opaque", "opts": "dict[str,PyVal]"}
+    properties = ["C01", "C02"]
+    locals = {"inputs": "opaque"}
+    opaque_calls = ["scc", "nonterminal_graph", "apply_to_patterned_tensors", "RealSemiring", "cast"]
+    loops = {0: lambda: True,
+             1: lambda max_rhs: max_rhs >= 0,
+             2: lambda max_rhs: max_rhs >= 0,
+             3: lambda max_rhs, n: max_rhs >= 0 and n >= 0}
+    # which method each strongly connected component is solved with:
+    #   one-step   iff it is a single nonterminal none of whose rules mentions the component (acyclic),
+    #   linear     instead of newton iff no rule has more than one edge inside the component,
+    #   otherwise the method the caller asked for
+    checks = {"comp_values = SumProduct.apply_to_patterned_tensors(fgg, comp_opts, inputs.keys(), comp_labels, *inputs.values())":
+              lambda comp, comp_opts, opts, max_rhs: (
+                  implies(len(comp) == 1 and max_rhs == 0, comp_opts["method"] == "one-step")
+                  and implies(not (len(comp) == 1 and max_rhs == 0) and max_rhs == 1 and opts["method"] == "newton",
+                              comp_opts["method"] == "linear")
+                  and implies(not (len(comp) == 1 and max_rhs == 0) and not (max_rhs == 1 and opts["method"] == "newton"),
+                              comp_opts["method"] == opts["method"])
+                  and forall(lambda s: implies(s != "method", (s in comp_opts) == (s in opts)
+                                               and implies(s in opts, comp_opts[s] == opts[s])), "str"))}
